@@ -181,12 +181,15 @@ class Graph(nx.DiGraph):  # pylint: disable=too-many-public-methods
         """Return the nodes from the level: those of the routers `<node>_<i>_<j>...` of the tree `node`."""
 
         def in_tree(name):
-            # Other nodes may merely start with the same characters (`router2_0`, `router_cfg`)
+            # Other nodes may merely start with the same characters (`router2_0`, `router_cfg`),
+            # and a router of level `lvl` has at most `lvl + 1` indices (`router_1_0` is not on
+            # level 0 of `router`, it is the first router of another tree called `router_1`)
             if name == node:
                 return True
             if not name.startswith(node + "_"):
                 return False
-            return all(i.isdigit() for i in name[len(node) + 1 :].split("_"))
+            indices = name[len(node) + 1 :].split("_")
+            return len(indices) <= lvl + 1 and all(i.isdigit() for i in indices)
 
         nodes = self.get_nodes(
             filters=[in_tree, lambda n: self.nodes[n].get("lvl") == lvl],
